@@ -48,6 +48,10 @@ CONSTANTS MaxNodes,   \* node objects that may ever be created
           Light       \* TRUE: no End events (projection clauses are then covered by the
                       \* invariant Structural only); for the large dispatch/completion configs
 
+\* without End events the down marks are never reported to the Abs machine, which the
+\* close clauses of a leave need
+ASSUME Light => ~Membership
+
 VARIABLES heap, load, ns, downq, chan, epn, late, neg, abs, viol
 ivars == <<heap, load, ns, downq, chan, epn, late, neg>>
 vars == <<ivars, abs, viol>>
@@ -101,12 +105,15 @@ GetLoop(s) ==
 \* ------------------------------------------------------------------ events for the Abs machine
 Eff(ld, n) == IF ld[n] >= P THEN ld[n] - P ELSE ld[n]
 ProjOf(ld, nss, ng) ==
-  IF Light THEN [e |-> "Held", r |-> 0] ELSE
   LET cr == {n \in NodeIds : nss[n] # "free"}
       sq == SetToSeq(cr)
   IN [e |-> "End", hasL |-> 1, neg |-> ng,
       L |-> [i \in DOMAIN sq |-> <<sq[i], Eff(ld, sq[i]), IF nss[sq[i]] = "rm" THEN 1 ELSE 0,
                                    IF ld[sq[i]] >= P THEN 1 ELSE 0>>]]
+\* every action is synchronous, so every step ends quiescent: End, then Q with the endpoints
+\* of the heap after the step
+QOf(hp, ep) == [e |-> "Q", hasE |-> 1, elig |-> [i \in DOMAIN hp |-> ep[hp[i]]]]
+StepEnd(ld, nss, ng, hp, ep) == IF Light THEN <<>> ELSE <<ProjOf(ld, nss, ng), QOf(hp, ep)>>
 UOf == [i \in DOMAIN heap |-> <<heap[i], chan[heap[i]], abs.node[heap[i]].out>>]
 
 Emit(evs) ==
@@ -118,17 +125,18 @@ Emit(evs) ==
 Dispatch ==
   IF Size = 0
   THEN /\ Emit(<<[e |-> "Disp", r |-> 0, n |-> -1, err |-> "nomembers", st |-> 0, fresh |-> 0,
-                  hasU |-> 1, U |-> <<>>], ProjOf(load, ns, neg)>>)
+                  hasU |-> 1, U |-> <<>>]>> \o StepEnd(load, ns, neg, heap, epn))
        /\ UNCHANGED ivars
   ELSE LET g == GetLoop([heap |-> heap, load |-> load, downq |-> downq])
            n == g.heap[1]
            ld == [g.load EXCEPT ![n] = @ + 1]
+           hp == FixDown(g.heap, ld, 1, Size)
        IN /\ abs.node[n].out < MaxLoad
-          /\ heap' = FixDown(g.heap, ld, 1, Size)
+          /\ heap' = hp
           /\ load' = ld
           /\ downq' = g.downq
           /\ Emit(<<[e |-> "Disp", r |-> 0, n |-> n, err |-> "none", st |-> chan[n], fresh |-> 0,
-                     hasU |-> 1, U |-> UOf], ProjOf(ld, ns, neg)>>)
+                     hasU |-> 1, U |-> UOf]>> \o StepEnd(ld, ns, neg, hp, epn))
           /\ UNCHANGED <<ns, chan, epn, late, neg>>
 
 Put(n, j, kind) ==
@@ -142,27 +150,28 @@ Put(n, j, kind) ==
          ng == IF below THEN neg + 1 ELSE neg
          closes == ns[n] = "rm" /\ l1 = 0
          idleBranch == ns[n] = "in" /\ l1 = 0 /\ Size > 1
+         hp == IF ns[n] = "rm" THEN heap
+               ELSE IF idleBranch
+               THEN LET h2 == SwapOut(heap, ld, PosOf(heap, n), Size)
+                        h3 == Swap(h2, j, Size)
+                        h4 == FixUp(h3, ld, j)
+                    IN FixUp(h4, ld, Size)
+               ELSE FixUp(heap, ld, PosOf(heap, n))
      IN /\ (idleBranch \/ j = 1)
-        /\ heap' = IF ns[n] = "rm" THEN heap
-                   ELSE IF idleBranch
-                   THEN LET h2 == SwapOut(heap, ld, PosOf(heap, n), Size)
-                            h3 == Swap(h2, j, Size)
-                            h4 == FixUp(h3, ld, j)
-                        IN FixUp(h4, ld, Size)
-                   ELSE FixUp(heap, ld, PosOf(heap, n))
+        /\ heap' = hp
         /\ load' = ld
         /\ neg' = ng
         /\ chan' = IF closes THEN [chan EXCEPT ![n] = CLOSED] ELSE chan
         /\ late' = IF TrackLate /\ kind = "timeout" THEN [late EXCEPT ![n] = 1] ELSE late
         /\ Emit(<<[e |-> "Comp", r |-> 0, n |-> n, kind |-> kind]>>
                 \o (IF closes THEN <<[e |-> "CloseSeen", n |-> n]>> ELSE <<>>)
-                \o <<ProjOf(ld, ns, ng)>>)
+                \o StepEnd(ld, ns, ng, hp, epn))
         /\ UNCHANGED <<ns, downq, epn>>
 
 LateArrive(n) ==
   /\ TrackLate /\ late[n] = 1
   /\ late' = [late EXCEPT ![n] = 0]
-  /\ Emit(<<[e |-> "Late", r |-> 0, n |-> n], ProjOf(load, ns, neg)>>)
+  /\ Emit(<<[e |-> "Late", r |-> 0, n |-> n]>> \o StepEnd(load, ns, neg, heap, epn))
   /\ UNCHANGED <<heap, load, ns, downq, chan, epn, neg>>
 
 AddSink(e) ==
@@ -170,18 +179,20 @@ AddSink(e) ==
   /\ LET n == Cardinality(Created) + 1
          ld == [load EXCEPT ![n] = 0]
          nss == [ns EXCEPT ![n] = "in"]
-     IN /\ heap' = FixUp(Append(heap, n), ld, Size + 1)
+         hp == FixUp(Append(heap, n), ld, Size + 1)
+         epp == [epn EXCEPT ![n] = e]
+     IN /\ heap' = hp
         /\ load' = ld
         /\ ns' = nss
-        /\ epn' = [epn EXCEPT ![n] = e]
+        /\ epn' = epp
         /\ chan' = [chan EXCEPT ![n] = IF Faults THEN CLOSED ELSE OPEN]
         /\ Emit(<<[e |-> "Join", ep |-> e], [e |-> "Create", n |-> n, ep |-> e],
-                  [e |-> "JoinDone", ep |-> e], ProjOf(ld, nss, neg)>>)
+                  [e |-> "JoinDone", ep |-> e]>> \o StepEnd(ld, nss, neg, hp, epp))
         /\ UNCHANGED <<downq, late, neg>>
 
 JoinDup(e) ==
   /\ Membership /\ e \in CurEps
-  /\ Emit(<<[e |-> "Join", ep |-> e], [e |-> "JoinDone", ep |-> e], ProjOf(load, ns, neg)>>)
+  /\ Emit(<<[e |-> "Join", ep |-> e], [e |-> "JoinDone", ep |-> e]>> \o StepEnd(load, ns, neg, heap, epn))
   /\ UNCHANGED ivars
 
 RemoveSink(e) ==
@@ -189,17 +200,18 @@ RemoveSink(e) ==
   /\ LET n == CHOOSE m \in NodeIds : ns[m] = "in" /\ epn[m] = e
          closes == load[n] = 0 \/ load[n] >= P
          nss == [ns EXCEPT ![n] = "rm"]
-     IN /\ heap' = SubSeq(SwapOut(heap, load, PosOf(heap, n), Size), 1, Size - 1)
+         hp == SubSeq(SwapOut(heap, load, PosOf(heap, n), Size), 1, Size - 1)
+     IN /\ heap' = hp
         /\ ns' = nss
         /\ chan' = [chan EXCEPT ![n] = CLOSED]     \* never read again for a discarded node
         /\ Emit(<<[e |-> "Leave", ep |-> e]>>
                 \o (IF closes THEN <<[e |-> "CloseSeen", n |-> n]>> ELSE <<>>)
-                \o <<[e |-> "LeaveDone", ep |-> e], ProjOf(load, nss, neg)>>)
+                \o <<[e |-> "LeaveDone", ep |-> e]>> \o StepEnd(load, nss, neg, hp, epn))
         /\ UNCHANGED <<load, downq, epn, late, neg>>
 
 LeaveUnknown(e) ==
   /\ Membership /\ e \notin CurEps
-  /\ Emit(<<[e |-> "Leave", ep |-> e], [e |-> "LeaveDone", ep |-> e], ProjOf(load, ns, neg)>>)
+  /\ Emit(<<[e |-> "Leave", ep |-> e], [e |-> "LeaveDone", ep |-> e]>> \o StepEnd(load, ns, neg, heap, epn))
   /\ UNCHANGED ivars
 
 ChanFlip(n, st) ==
